@@ -3,6 +3,7 @@ package main
 import (
 	"bytes"
 	"encoding/base64"
+	"encoding/json"
 	"fmt"
 	"regexp"
 	"sort"
@@ -240,6 +241,8 @@ func (a *absCtx) identity(api string, c *Cfg, v *Val, ms []*Matcher) (string, bo
 				text, ok = string(b), true
 			case "go":
 				text, ok = a.goJSON[v.Name]
+			case "gojson":
+				text, ok = goJSONText(v)
 			}
 			sortKeys := true
 			if c != nil && c.JSON != nil {
@@ -522,6 +525,7 @@ func abstractRun(a *absCtx, r *ScenarioRun, drvDir string) ([]map[string]any, er
 					mf = append(mf, []string{m[0], m[1]})
 				}
 				rec["mfail"] = mf
+				rec["lossless"] = losslessJSON(a, st, e, logKind(logs))
 				rec["inj"] = false
 				if x.Text != nil {
 					rec["known"] = true
@@ -577,4 +581,83 @@ func idle(p *Proc, name string) bool {
 		}
 	}
 	return true
+}
+
+// goJSONText: the standard JSON encoding of the Go value the driver builds for a "gojson" input
+func goJSONText(v *Val) (string, bool) {
+	b, _ := base64.StdEncoding.DecodeString(v.B64)
+	dec := json.NewDecoder(bytes.NewReader(b))
+	dec.UseNumber()
+	var x any
+	if err := dec.Decode(&x); err != nil {
+		return "", false
+	}
+	out, err := json.Marshal(x)
+	if err != nil {
+		return "", false
+	}
+	return string(out), true
+}
+
+// losslessJSON: does the text a MatchJSON / MatchStandaloneJSON call just stored parse to the same
+// JSON value as its input (C14)? "yes" / "no" / "na". The stored text is read by the harness's
+// own JSON reader; member order is ignored, scalars are compared raw.
+func losslessJSON(a *absCtx, st *Step, e *RawEvent, logk string) string {
+	if (st.API != "json" && st.API != "sjson") || len(st.Matchers) > 0 || st.Val == nil || (logk != "added" && logk != "updated") {
+		return "na"
+	}
+	in, ok := "", false
+	switch st.Val.K {
+	case "str", "bytes":
+		b, _ := base64.StdEncoding.DecodeString(st.Val.B64)
+		in, ok = string(b), true
+	case "gojson":
+		in, ok = goJSONText(st.Val)
+	case "go":
+		in, ok = a.goJSON[st.Val.Name]
+	}
+	if !ok {
+		return "na"
+	}
+	want, ok := canonJSON(in, true)
+	if !ok {
+		return "na"
+	}
+	for _, d := range e.Dirs {
+		for _, f := range d.Files {
+			if !f.Touched || f.IsDir {
+				continue
+			}
+			b, _ := base64.StdEncoding.DecodeString(f.B64)
+			stored := string(b)
+			if st.API == "json" {
+				// the frame this call wrote: the last header of this test in the touched file
+				lines := strings.Split(stored, "\n")
+				start := -1
+				pre := "[" + e.T + " - "
+				for i, l := range lines {
+					if strings.HasPrefix(l, pre) && strings.HasSuffix(l, "]") {
+						start = i
+					}
+				}
+				if start < 0 {
+					return "no"
+				}
+				end := len(lines)
+				for i := start + 1; i < len(lines); i++ {
+					if lines[i] == "---" {
+						end = i
+						break
+					}
+				}
+				stored = strings.Join(lines[start+1:end], "\n")
+			}
+			got, ok := canonJSON(stored, true)
+			if !ok || got != want {
+				return "no"
+			}
+			return "yes"
+		}
+	}
+	return "na"
 }
